@@ -580,6 +580,54 @@ static void pointer_types(uint64_t& blk)
         else if (got != f.v) viol(std::string("C07 op=load type=VS.") + f.n + " kind=decoding", kase, "field decoded to " + str(got));
         restore(a + f.off, f.w);
       }
+      // the whole object at once: loading it decodes every field from the guest image (pointer fields relative to THIS
+      // region), storing it writes exactly the guest image
+      {
+        VSG img{};
+        img.a = -123456;
+        img.c = 'q';
+        img.p = (PtrT)0x1234;
+        img.ll = 0x0102030405060708LL;
+        img.arr[0] = 1;
+        img.arr[1] = -3;
+        img.arr[2] = 32767;
+        img.fn = (PtrT)fnrep;
+        memcpy(g_mem + a, &img, sizeof img);
+        uintptr_t gp = 1, gf = 1;
+        long ga = 0;
+        long long gll = 0;
+        short g1 = 0;
+        Out o = guarded([&] {
+          tn<VS> v = *ps;
+          gp = reinterpret_cast<uintptr_t>(v.p.UNSAFE_unverified());
+          gf = reinterpret_cast<uintptr_t>(v.fn.UNSAFE_unverified());
+          ga = v.a.UNSAFE_unverified();
+          gll = v.ll.UNSAFE_unverified();
+          g1 = v.arr[1].UNSAFE_unverified();
+        });
+        n_eval++;
+        if (o != O_RET) viol("C07 op=load type=VS(whole) kind=abort-or-crash", kase, "whole-struct load did not return");
+        else if (gp != g_base + 0x1234 || gf != reinterpret_cast<uintptr_t>(&guest_gfn) || ga != -123456 || gll != 0x0102030405060708LL || g1 != -3)
+          viol("C07 op=load type=VS(whole) kind=decoding", kase, "whole-struct load decoded a field wrongly (pointer field -> " + std::to_string(gp - g_base) + " relative to the region, expected 4660)");
+        // store it back somewhere else and compare the images
+        uint64_t b = a < 0x8000 ? 0xA000 : 0x2000;
+        std::string why;
+        o = guarded([&] {
+          tn<VS> v = *ps;
+          auto pd = ptr_at<VS>(b);
+          *pd = v;
+        });
+        n_eval++;
+        if (o != O_RET) viol("C07 op=store type=VS(whole) kind=abort-or-crash", kase, "whole-struct store did not return");
+        else {
+          VSG back{};
+          memcpy(&back, g_mem + b, sizeof back);
+          if (back.a != img.a || back.c != img.c || back.p != img.p || back.ll != img.ll || back.arr[0] != img.arr[0] || back.arr[1] != img.arr[1] || back.arr[2] != img.arr[2] || back.fn != img.fn)
+            viol("C07 op=store type=VS(whole) kind=bytes", kase, "whole-struct store wrote a field that differs from the guest image it was loaded from");
+        }
+        restore(a, sizeof img);
+        restore(b, sizeof img);
+      }
     }
   }
 }
